@@ -21,9 +21,11 @@
 #include <hgraph/runtime/runtime.h>
 #include <hgraph/types/static_schema.h>
 #include <hgraph/types/type_resolution.h>
+#include <hgraph/util/verif_hooks.h>
 
 #include <atomic>
 #include <chrono>
+#include <functional>
 #include <future>
 #include <map>
 #include <mutex>
@@ -95,6 +97,35 @@ namespace
                                    hgraph::testing::single_input_endpoint(input_schema, input_ts));
     }
 
+    // ------------------------------------------------------------------ optional protocol points
+    // When push_source_node.cpp is built with the HGRAPH_VERIF_POINTs "push.admitted" (a send was
+    // admitted, its mark has not happened yet) and "push.popped" (the push node popped, its re-arm
+    // has not happened yet), a schedule step may carry one nested step in braces that is executed
+    // at that point, on the thread that reached it:  t1:5{c}  b1:5{r}  c{t2:7}.
+    struct Nest
+    {
+        const char                              *point{nullptr};
+        std::string                              step;
+        std::function<std::string(const std::string &)> exec;
+        std::function<void()>                    on_fire;
+        bool                                     armed{false}, fired{false};
+        std::string                              out;
+    };
+    Nest g_nest;
+
+    int g_points_seen = 0;
+
+    void hook_point(void *, const char *name)
+    {
+        ++g_points_seen;
+        if (!g_nest.armed || g_nest.fired || g_nest.point == nullptr || std::string(name) != g_nest.point) { return; }
+        g_nest.fired = true;
+        if (g_nest.on_fire) { g_nest.on_fire(); }
+        g_nest.out = g_nest.exec(g_nest.step);
+    }
+
+    const verif::Hooks g_hooks{nullptr, nullptr, nullptr, &hook_point};
+
     std::string run_schedule(std::size_t cap, char policy, const std::vector<std::string> &steps)
     {
         Run run;
@@ -164,10 +195,10 @@ namespace
             }
         };
 
-        for (const std::string &st : steps)
-        {
+        std::size_t expect = 0;
+        // one plain step (no braces); `inline_send`: run a try_send on the calling thread (nested use)
+        std::function<std::string(const std::string &, bool)> plain = [&](const std::string &st, bool nested) -> std::string {
             std::string line = st;
-            std::size_t expect = 0;
             if (st == "S")
             {
                 if (run.started) { line += "=-"; }
@@ -181,15 +212,16 @@ namespace
                     run.time += 1;
                     run.cycle_vals.clear();
                     graph.evaluate(dt(run.time));
+                    const std::vector<std::string> vals = run.cycle_vals;      // a nested send cannot add to it
                     line += std::to_string(run.time) + ":";
-                    if (run.cycle_vals.empty()) { line += "-"; }
-                    for (std::size_t i = 0; i < run.cycle_vals.size(); ++i)
+                    if (vals.empty()) { line += "-"; }
+                    for (std::size_t i = 0; i < vals.size(); ++i)
                     {
-                        line += (i ? "," : "") + run.cycle_vals[i];
-                        run.delivered.push_back(std::to_string(run.time) + ":" + run.cycle_vals[i]);
+                        line += (i ? "," : "") + vals[i];
+                        run.delivered.push_back(std::to_string(run.time) + ":" + vals[i]);
                     }
                     // a pop made room: queue policy one slot, burst the whole capacity
-                    if (!run.cycle_vals.empty()) { expect = std::min(run.blocked.size(), run.policy == 'b' ? run.cap : std::size_t{1}); }
+                    if (!vals.empty()) { expect = std::min(run.blocked.size(), run.policy == 'b' ? run.cap : std::size_t{1}); }
                 }
             }
             else if (st == "r") { view.request_stop(); run.rstop = true; }
@@ -207,10 +239,20 @@ namespace
                 bool busy = false;
                 for (const auto &o : run.blocked) { busy = busy || o.producer == producer; }
                 if (busy) { line += "=busy"; }
+                else if (nested)
+                {
+                    // at a protocol point: a non-blocking send on the thread that reached the point
+                    int r = -1;
+                    try { r = run.sender.try_send(Int{value}) ? 1 : 0; } catch (...) {}
+                    if (r == 1) { run.accepted.push_back(value); }
+                    line += "=" + res_str(r);
+                }
                 else
                 {
                     // does the real state predict that this call parks in capacity_available.wait?
                     const bool expect_block = blocking && run.started && !run.stopped && !run.rstop && full_now();
+                    bool recorded = false;
+                    g_nest.on_fire = [&run, &recorded, value] { run.accepted.push_back(value); recorded = true; };
                     std::promise<int> promise;
                     Outstanding o{producer, value, promise.get_future(), {}};
                     PushSourceSender sender = run.sender;
@@ -223,7 +265,7 @@ namespace
                     {
                         const int r = o.result.get();
                         o.thread.join();
-                        if (r == 1) { run.accepted.push_back(value); }
+                        if (r == 1 && !recorded) { run.accepted.push_back(value); }
                         line += "=" + res_str(r);
                     }
                     else
@@ -231,13 +273,37 @@ namespace
                         line += "=B";
                         run.blocked.push_back(std::move(o));
                     }
+                    g_nest.on_fire = nullptr;
                 }
             }
             else { line += "=?"; }
+            return line;
+        };
+        auto status = [&] { return " p" + std::to_string(pending()) + " f" + (flag() ? "1" : "0"); };
+
+        verif::install(&g_hooks);
+        for (const std::string &full : steps)
+        {
+            expect = 0;
+            std::string st = full, inner;
+            const auto  br = full.find('{');
+            if (br != std::string::npos) { st = full.substr(0, br); inner = full.substr(br + 1, full.size() - br - 2); }
+            g_nest = Nest{};
+            if (!inner.empty())
+            {
+                g_nest.point = st == "c" ? "push.popped" : "push.admitted";
+                g_nest.step  = inner;
+                g_nest.exec  = [&](const std::string &x) { std::string r = plain(x, true); r += status(); return r; };
+                g_nest.armed = true;
+            }
+            std::string line = plain(st, false);
+            if (!inner.empty()) { line += "{" + (g_nest.fired ? g_nest.out : std::string("-")) + "}"; }
+            g_nest = Nest{};
             settle(line, expect);
-            line += " p" + std::to_string(pending()) + " f" + (flag() ? "1" : "0");
+            line += status();
             out.push_back(line);
         }
+        verif::install(nullptr);
         // release whatever is still blocked so the threads can be joined
         if (run.started && !run.stopped) { graph.stop(dt(run.time)); run.stopped = true; }
         std::string tail;
@@ -327,7 +393,7 @@ namespace
                             {
                                 ++refused;
                                 std::this_thread::yield();
-                                if (std::chrono::steady_clock::now() - s0 > std::chrono::seconds{60}) { ++failed; break; }
+                                if (std::chrono::steady_clock::now() - s0 > std::chrono::seconds{15}) { ++failed; break; }
                             }
                         }
                     }
@@ -351,7 +417,7 @@ namespace
             std::size_t n;
             { std::lock_guard lock{mu}; n = delivered.size(); }
             if (n >= total - static_cast<std::size_t>(failed.load()) && n >= total) { break; }
-            if (std::chrono::steady_clock::now() - t1 > std::chrono::seconds{90}) { timeout = true; break; }
+            if (std::chrono::steady_clock::now() - t1 > std::chrono::seconds{15}) { timeout = true; break; }
             std::this_thread::sleep_for(std::chrono::microseconds{50});
         }
         if (timeout) { view.request_stop(); }      // releases parked senders through the graph stop
@@ -405,6 +471,13 @@ int main()
                 policy = w[2][0];
                 std::cout << "ok\n";
             }
+            else if (w[0] == "points" && w.size() == 1)
+            {
+                // are the optional protocol points compiled into push_source_node.cpp?
+                g_points_seen = 0;
+                (void)run_schedule(0, 'q', {"S", "t1:1", "c"});
+                std::cout << "points=" << (g_points_seen > 0 ? 1 : 0) << "\n";
+            }
             else if (w[0] == "stress" && w.size() == 5)
             {
                 std::cout << run_stress(static_cast<int>(to_i(w[1])), static_cast<int>(to_i(w[2])),
@@ -415,8 +488,31 @@ int main()
             {
                 std::vector<std::string> steps(w.begin() + 1, w.end());
                 bool ok = true;
-                for (const auto &s : steps)
+                auto plain_ok = [](const std::string &s) {
+                    const bool simple = s == "S" || s == "c" || s == "r" || s == "X";
+                    bool send = false;
+                    if (!simple && !s.empty() && (s[0] == 't' || s[0] == 'b'))
+                    {
+                        const auto c = s.find(':');
+                        send = c != std::string::npos && c > 1 && c + 1 < s.size() &&
+                               s.substr(1, c - 1).find_first_not_of("0123456789") == std::string::npos &&
+                               s.substr(c + 1).find_first_not_of("0123456789") == std::string::npos;
+                    }
+                    return simple || send;
+                };
+                for (const auto &full : steps)
                 {
+                    std::string s = full;
+                    const auto  br = full.find('{');
+                    if (br != std::string::npos)
+                    {
+                        // outer: a send or a cycle; inner: c / r / a try_send
+                        const std::string inner = full.back() == '}' ? full.substr(br + 1, full.size() - br - 2) : "{";
+                        s = full.substr(0, br);
+                        const bool outer_ok = s == "c" || (!s.empty() && (s[0] == 't' || s[0] == 'b'));
+                        const bool inner_ok = inner == "c" || inner == "r" || (!inner.empty() && inner[0] == 't');
+                        ok = ok && outer_ok && inner_ok && plain_ok(inner) && (s == "c" ? inner[0] == 't' : inner[0] != 't');
+                    }
                     const bool simple = s == "S" || s == "c" || s == "r" || s == "X";
                     bool send = false;
                     if (!simple && (s[0] == 't' || s[0] == 'b'))
